@@ -609,6 +609,9 @@ class SymInterp(PathInterp):
             t = ast.copy_location(ast.Compare(left=t.left, ops=[flip()], comparators=t.comparators), t)
             pol = not pol
         txt = self.text(t, st)
+        if txt.endswith(" is None") and txt[: -len(" is None")].isidentifier() and any(e[0] == "new" and e[1] == txt[: -len(" is None")] for e in st.events):
+            # a name that denotes an object created on this path is not None
+            return ([], [st]) if pol else ([st], [])
         if txt in ("None is None", "None is not None"):
             val = (txt == "None is None") == pol
             return ([st], []) if val else ([], [st])
